@@ -116,6 +116,17 @@ CHECKS = {
    technique="TLA+ field definition evaluated by TLC; exhaustive trace validation of recorded implementation values"),
 }
 NA_REASON = "not claimed"
+# families added later (kept apart from the base texts above)
+ADDED = {
+ "C02": " Also: payloads whose Adler-32 halves sit on their boundary values in the three zlib modes; streams of short-code blocks larger than the 64 KiB staging buffer with input/output ending at every byte near the boundary; the decoder told the window size (hist_bits); and round trips in the documented build variants IGZIP_HIST_SIZE=8192 and LONGER_HUFFTABLE (library and harness rebuilt with the define).",
+ "C05": " Later families: every input length with the smallest level buffers (buffer ending at an inaccessible page), level buffers at unaligned addresses, stored tails waiting in the internal buffer behind a pending wrapper header, and the level-3 look-ahead queued behind a pending stored block (two probe runs of the library locate the block length and input position, avail_out is swept around it).",
+ "C07": " Later families: model-guided schedules (least-visited environment choice from the current state of the TLA+ control machine), packed streams around the 64 KiB staging buffer, long matches and stored blocks resuming at its end, small-then-huge calls.",
+ "C08": " Vector counts below the documented minimum, including negative ones, must be refused by every variant.",
+ "C09": " The Cauchy recover sweeps are repeated under every simulated CPU level (base, sse, avx, avx2, avx512, avx2+gfni) through the re-assembled resolvers.",
+ "C14": " A FULL_FLUSH request that ran out of output space and is kept by every following call makes the marker written for that input position a full-flush point as well (rule D7 for pending requests); the first call's output size is swept around the compressed size learnt from a probe run. spec/FullFlushHistory.tla is the design-level model (repaired design satisfies NoCrossReference; the original and half-repaired ones violate it with the call histories this family replays). FULL_FLUSH beyond 64 KiB in near-window-periodic data.",
+ "C15": " Determinism pairs also vary the prior contents of the output buffer (zero / 0xFF / random) over ordinary and long constant-run inputs, one-shot and streaming.",
+ "C16": " Closure rule R2 (PCLMULQDQ => SSE4.1) was dropped: the two bits are architecturally independent (19452 configurations).",
+}
 
 def main():
     checks = []
@@ -129,7 +140,7 @@ def main():
           "evidence_file": "/verif/evidence/%s.json" % pid,
           "replay_cmd_template": "bin/check %s --replay {path}" % pid,
           "engine": "tlc+harness",
-          "level_claimed": {"category": c["cat"], "text": c["text"], "design_ref": c["ref"]},
+          "level_claimed": {"category": c["cat"], "text": c["text"] + ADDED.get(pid, ""), "design_ref": c["ref"]},
           "level_note": c["note"], "technique": c["technique"]})
     m = {"version": 1,
          "setup_cmd": "bin/setup",
